@@ -393,7 +393,7 @@ Proof.
   assert (E2 : String.eqb pfx (m_prefix M) = false) by (apply String.eqb_neq; exact Hown).
   rewrite E1, E2 in H. cbn [orb] in H.
   destruct (assoc_first pfx (m_imports M)) as [n|] eqn:Ea; [|discriminate].
-  destruct (find_mod S false n) as [root|] eqn:Er; [|discriminate].
+  destruct (FindModule S false n) as [root|] eqn:Er; [|discriminate].
   apply find_whole_some in H. destruct H as [m' [M' [Hin [Hk [HM' Hd]]]]].
   exists root, m', M'. split; [exists M, n; auto|]. split; [apply wholeModule_spec; exact Hin|]. auto.
 Qed.
